@@ -22,6 +22,7 @@ import (
 	"github.com/openbao/openbao/sdk/v2/helper/verif/sched"
 	"github.com/openbao/openbao/sdk/v2/helper/verif/vout"
 	"github.com/openbao/openbao/sdk/v2/logical"
+	"github.com/openbao/openbao/v2/internal/helper/namespace"
 )
 
 type c05Cred struct {
@@ -37,6 +38,11 @@ var c05Creds = []c05Cred{
 	{"login(ttl=100,max=1000)", 1000 * time.Second, 0},
 	{"login(period=100,explicit_max=1000)", 1000 * time.Second, 100 * time.Second},
 	{"secret(ttl=100,max=1000)", 1000 * time.Second, 0},
+	// the same kinds issued inside a child namespace (lease ids carry the namespace id, the
+	// records live in the namespace's storage area, renewals are routed by that suffix)
+	{"ns1:token(ttl=100,explicit_max=1000)", 1000 * time.Second, 0},
+	{"ns1:login(period=100,explicit_max=1000)", 1000 * time.Second, 100 * time.Second},
+	{"ns1:secret(ttl=100,max=1000)", 1000 * time.Second, 0},
 }
 
 type c05Sub struct {
@@ -54,8 +60,18 @@ func c05Image(t *testing.T) *Image {
 	s.WritePolicy("p05", `path "rec/*" { capabilities = ["read"] }
 path "auth/token/renew-self" { capabilities = ["update"] }
 path "sys/leases/renew" { capabilities = ["update"] }`)
+	s.mkNS(t, "ns1/", false)
+	ns1 := s.nsByPath(t, "ns1/")
+	c05NS1 = ns1
+	s.Must(s.ReqNS(ns1, s.Root, logical.UpdateOperation, "sys/mounts/rec", map[string]interface{}{"type": "rec"}))
+	s.Must(s.ReqNS(ns1, s.Root, logical.UpdateOperation, "sys/auth/ra", map[string]interface{}{"type": "recauth"}))
+	s.Must(s.ReqNS(ns1, s.Root, logical.UpdateOperation, "sys/policies/acl/p05", map[string]interface{}{"policy": `path "rec/*" { capabilities = ["read"] }
+path "auth/token/renew-self" { capabilities = ["update"] }
+path "sys/leases/renew" { capabilities = ["update"] }`}))
 	return s.Image()
 }
+
+var c05NS1 *namespace.Namespace
 
 func c05Create(s *Sys, c c05Cred) (*c05Sub, error) {
 	sub := &c05Sub{cred: c}
@@ -63,6 +79,12 @@ func c05Create(s *Sys, c c05Cred) (*c05Sub, error) {
 	var resp *logical.Response
 	var err error
 	switch {
+	case c.Name == "ns1:token(ttl=100,explicit_max=1000)":
+		resp, err = s.ReqNS(c05NS1, s.Root, logical.UpdateOperation, "auth/token/create", map[string]interface{}{"policies": []string{"p05"}, "ttl": "100s", "explicit_max_ttl": "1000s"})
+	case c.Name == "ns1:login(period=100,explicit_max=1000)":
+		resp, err = s.ReqNS(c05NS1, "", logical.UpdateOperation, "auth/ra/login", map[string]interface{}{"policies": []string{"p05"}, "period": 100, "explicit_max_ttl": 1000})
+	case c.Name == "ns1:secret(ttl=100,max=1000)":
+		resp, err = s.ReqNS(c05NS1, s.Root, logical.ReadOperation, "rec/lease/x", map[string]interface{}{"ttl": 100, "max_ttl": 1000})
 	case c.Name == "token(ttl=100,explicit_max=1000)":
 		resp, err = s.Req(s.Root, logical.UpdateOperation, "auth/token/create", map[string]interface{}{"policies": []string{"p05"}, "ttl": "100s", "explicit_max_ttl": "1000s"})
 	case c.Name == "token(period=100,explicit_max=1000)":
@@ -75,6 +97,8 @@ func c05Create(s *Sys, c c05Cred) (*c05Sub, error) {
 		resp, err = s.Req("", logical.UpdateOperation, "auth/ra/login", map[string]interface{}{"policies": []string{"p05"}, "period": 100, "explicit_max_ttl": 1000})
 	case strings.HasPrefix(c.Name, "secret"):
 		resp, err = s.Req(s.Root, logical.ReadOperation, "rec/lease/x", map[string]interface{}{"ttl": 100, "max_ttl": 1000})
+	default:
+		return nil, fmt.Errorf("unknown credential kind %s", c.Name)
 	}
 	if !OK(resp, err) || resp == nil {
 		return nil, fmt.Errorf("create %s: %s", c.Name, ErrText(resp, err))
@@ -101,7 +125,7 @@ type c05Lease struct {
 }
 
 func c05ReadLease(s *Sys, id string) (map[string]interface{}, *c05Lease, bool) {
-	v, ok := rawRead(s, "sys/expire/id/"+id)
+	v, ok := rawRead(s, expirePhysKey(id))
 	if !ok {
 		return nil, nil, false
 	}
@@ -130,7 +154,7 @@ func c05Age(s *Sys, dt time.Duration) error {
 			}
 		}
 		b, _ := json.Marshal(m)
-		resp, err := s.Req(s.Root, logical.UpdateOperation, "sys/raw/sys/expire/id/"+id, map[string]interface{}{"value": string(b)})
+		resp, err := s.Req(s.Root, logical.UpdateOperation, "sys/raw/"+expirePhysKey(id), map[string]interface{}{"value": string(b)})
 		if !OK(resp, err) {
 			return fmt.Errorf("cannot write lease %s: %s", id, ErrText(resp, err))
 		}
